@@ -162,7 +162,7 @@ func (p *vpd) GetTSAsync(ctx context.Context) tso.TSFuture {
 	return fut{ph, l}
 }
 func (p *vpd) GetLocalTS(ctx context.Context, _ string) (int64, int64, error) { return p.GetTS(ctx) }
-func (p *vpd) GetLocalTSAsync(ctx context.Context, _ string) tso.TSFuture    { return p.GetTSAsync(ctx) }
+func (p *vpd) GetLocalTSAsync(ctx context.Context, _ string) tso.TSFuture     { return p.GetTSAsync(ctx) }
 
 // ---------------------------------------------------------------------------------------------
 type World struct {
@@ -177,6 +177,7 @@ type World struct {
 	rng     *rand.Rand
 
 	splitAt map[int]bool
+	prio    map[string]int // non-nil: priority scheduling for this scenario
 	rpcs    int
 	epoch   int
 	bg      int64 // background goroutines of transactions started and not yet finished (lifecycle hooks)
@@ -188,10 +189,11 @@ type World struct {
 }
 
 type parkedRPC struct {
-	ch   chan struct{}
-	done chan struct{}
-	cl   string
-	cmd  string
+	waited int
+	ch     chan struct{}
+	done   chan struct{}
+	cl     string
+	cmd    string
 }
 
 type Client struct {
@@ -234,6 +236,10 @@ func (w *World) reset(info M, splits []int) {
 	testutils.BootstrapWithMultiRegions(cluster, sk...)
 	w.mock, w.cluster, w.pdc = mock, cluster, pdc
 	w.splitAt = map[int]bool{}
+	w.prio = nil
+	if w.rng.Intn(2) == 0 {
+		w.prio = map[string]int{}
+	}
 	w.rpcs = 0
 	w.epoch++
 	for _, s := range splits {
@@ -243,6 +249,10 @@ func (w *World) reset(info M, splits []int) {
 	e := M{"ev": "reset", "nkeys": w.nkeys, "splits": splits}
 	for k, v := range info {
 		e[k] = v
+	}
+	if _, ok := e["lossless"]; !ok {
+		// no request or response is lost and nobody crashes in these families: a finished transaction must not leave a lock
+		e["lossless"] = e["kind"] == "c01" || e["kind"] == "c06"
 	}
 	w.rec.emit(e)
 }
@@ -342,10 +352,10 @@ type Gate struct {
 	w      *World
 	name   string
 	dead   atomic.Bool
-	epoch  int                                           // scenario this gate belongs to; a late RPC of an earlier scenario is refused
-	n      int64                                         // RPCs of this client seen so far (protocol commands only)
-	policy func(idx int, req *tikvrpc.Request) Action    // called once per arriving RPC, under schedMu
-	faults []string                                      // injected faults, for the evidence
+	epoch  int                                        // scenario this gate belongs to; a late RPC of an earlier scenario is refused
+	n      int64                                      // RPCs of this client seen so far (protocol commands only)
+	policy func(idx int, req *tikvrpc.Request) Action // called once per arriving RPC, under schedMu
+	faults []string                                   // injected faults, for the evidence
 }
 
 var errCrashed = errors.New("verif: client crashed")
@@ -503,6 +513,40 @@ func (w *World) startScheduler() {
 				return w.parked[i].cmd < w.parked[j].cmd
 			})
 			i := w.rng.Intn(n)
+			if w.prio != nil {
+				// PCT-style: release the parked RPC of the client with the highest priority; priorities change at a few
+				// random points, so one client's request can stay parked while others run through several calls
+				if w.rng.Intn(12) == 0 {
+					for k := range w.prio {
+						w.prio[k] = w.rng.Intn(1000)
+					}
+				}
+				best := -1
+				for j, q := range w.parked {
+					if _, ok := w.prio[q.cl]; !ok {
+						w.prio[q.cl] = w.rng.Intn(1000)
+					}
+					q.waited++
+					if best < 0 || w.prio[q.cl] > w.prio[w.parked[best].cl] {
+						best = j
+					}
+				}
+				// among the RPCs of the chosen client pick at random (no fixed order inside one client), and never let any
+				// RPC wait for more than a bounded number of releases: the schedule stays fair
+				var same []int
+				for j, q := range w.parked {
+					if q.cl == w.parked[best].cl {
+						same = append(same, j)
+					}
+				}
+				i = same[w.rng.Intn(len(same))]
+				for j, q := range w.parked {
+					if q.waited > 40 {
+						i = j
+						break
+					}
+				}
+			}
 			p := w.parked[i]
 			w.parked = append(w.parked[:i], w.parked[i+1:]...)
 			last = -1
